@@ -67,6 +67,7 @@ pub fn gen(seed: u64, idx: u64, _tier: Tier) -> Case {
             ("h_read_full", 6),
             ("h_read", 2),
             ("h_drop", 2),
+            ("h_len", 3),
         ],
         max_objects: 8,
         max_depth: 2,
@@ -92,6 +93,19 @@ pub fn gen(seed: u64, idx: u64, _tier: Tier) -> Case {
         pre.push(Op::HSeek { h: 3, whence: Whence::Start, off: 0, uoff: rng.below(len) });
         pre.push(Op::HWriteAll { h: 3, len: *rng.pick(&[7usize, 300]), nonce: 79 });
         pre.push(Op::HRead { h: 3, n: 50 });
+        pre.push(Op::HFlush { h: 3 });
+        // append, then leave the buffer with End-/Current-relative seeks (each has to write the
+        // appended bytes back first), write there, flush
+        pre.push(Op::HSeek { h: 3, whence: Whence::End, off: 0, uoff: 0 });
+        pre.push(Op::HWriteAll { h: 3, len: *rng.pick(&[100usize, 1500]), nonce: 80 });
+        pre.push(Op::HSeek { h: 3, whence: Whence::End, off: -(rng.range(1500, 2500) as i64), uoff: 0 });
+        pre.push(Op::HLen { h: 3 });
+        pre.push(Op::HWriteAll { h: 3, len: 9, nonce: 81 });
+        pre.push(Op::HSeek { h: 3, whence: Whence::End, off: 0, uoff: 0 });
+        pre.push(Op::HWriteAll { h: 3, len: 300, nonce: 82 });
+        pre.push(Op::HSeek { h: 3, whence: Whence::Current, off: -2000, uoff: 0 });
+        pre.push(Op::HWriteAll { h: 3, len: 5, nonce: 83 });
+        pre.push(Op::HLen { h: 3 });
         pre.push(Op::HFlush { h: 3 });
         pre.push(Op::HDrop { h: 3 });
         for op in &pre {
@@ -320,6 +334,39 @@ fn execute(case: &Case, plan: &[Fault], heal_after_first_failure: bool) -> RunOu
                 }
                 Op::HDrop { h } => {
                     hs[*h] = None;
+                }
+                Op::HSeek { h, whence: Whence::End, off, .. } => {
+                    // an End-relative seek that succeeds (first try or retry) must land at
+                    // len + off, where len is what the accepted writes amount to
+                    if let (Res::Num(p), Some(st)) = (&got, hs[*h].as_ref()) {
+                        if let Some(c) = &st.content {
+                            let want = c.len() as i128 + *off as i128;
+                            if want >= 0 && want != *p as i128 {
+                                out.violation = Some((
+                                    "wrong-position-after-fault".into(),
+                                    "h_seek".into(),
+                                    format!("step {} {} (attempt {}) returned Ok({}) but the stream holds {} accepted bytes, so the target is {}", i, op.to_json(), tries, p, c.len(), want),
+                                    i,
+                                ));
+                                break 'ops;
+                            }
+                        }
+                    }
+                }
+                Op::HLen { h } => {
+                    if let (Res::Num(l), Some(st)) = (&got, hs[*h].as_ref()) {
+                        if let Some(c) = &st.content {
+                            if *l != c.len() as u64 {
+                                out.violation = Some((
+                                    "wrong-len-after-fault".into(),
+                                    "h_len".into(),
+                                    format!("step {} {}: len() is {} but the accepted writes amount to {} bytes", i, op.to_json(), l, c.len()),
+                                    i,
+                                ));
+                                break 'ops;
+                            }
+                        }
+                    }
                 }
                 Op::WriteWhole { path, len, nonce } => {
                     if is_err {
